@@ -28,7 +28,52 @@ type c03Payload struct {
 }
 
 // execWorkload materialises w into dir (wiped first) and runs it under sched.
+// When both generation and inspection are requested they are two simulated
+// executions: a budget abort (or panic) while generating must not take the
+// inspection down with it, or the comparison of outcomes would depend on which
+// language fails first.
 func execWorkload(dir string, w *Workload, sched simrt.Schedule, fsPlan *simrt.FSPlan, opts RunOpts) (map[string]string, *Observation, *Exec) {
+	if opts.Generate && opts.Inspect && fsPlan == nil {
+		g := opts
+		g.Inspect = false
+		sumG, obsG, exG := execWorkload(dir, w, sched, nil, g)
+		i := opts
+		i.Generate = false
+		sumI, obsI, exI := execWorkload(dir, w, sched, nil, i)
+		for k, v := range sumI {
+			if k == "run.status" || k == "files.paths" {
+				continue
+			}
+			sumG[k] = v
+		}
+		if obsG != nil && obsI != nil {
+			obsG.IRLoad, obsG.IRLang, obsG.ErrLoad, obsG.ErrLang = obsI.IRLoad, obsI.IRLang, obsI.ErrLoad, obsI.ErrLang
+			obsG.Panics = append(obsG.Panics, obsI.Panics...)
+		}
+		// account both executions as one
+		exG.Ticks += exI.Ticks
+		exG.LogHash = simrt.Mix(exG.LogHash ^ exI.LogHash)
+		for site, st := range exI.Run.Sites {
+			agg := exG.Run.Sites[site]
+			if agg == nil {
+				agg = &simrt.SiteStat{}
+				exG.Run.Sites[site] = agg
+			}
+			agg.Events += st.Events
+			agg.Multi += st.Multi
+			agg.NonCanon += st.NonCanon
+			if st.MaxKeys > agg.MaxKeys {
+				agg.MaxKeys = st.MaxKeys
+			}
+		}
+		if exG.Panic == nil {
+			exG.Panic = exI.Panic
+		}
+		if exG.Err == nil {
+			exG.Err = exI.Err
+		}
+		return sumG, obsG, exG
+	}
 	_ = os.RemoveAll(dir)
 	must(os.MkdirAll(dir, 0o755))
 	cfg, err := w.Materialise(dir)
@@ -44,11 +89,24 @@ func execWorkload(dir string, w *Workload, sched simrt.Schedule, fsPlan *simrt.F
 	if obs != nil {
 		sum = obs.Summary()
 	}
+	if !opts.Inspect {
+		delete(sum, "load.status")
+	}
+	if !opts.Generate {
+		delete(sum, "run.status")
+		delete(sum, "files.paths")
+	}
 	// C03 compares outcomes, not failure modes: which language fails first (and
 	// whether it fails by error or by panic, C04's business) follows the order
 	// of the language loop, but "the run fails" does not.
 	if ex.Panic != nil {
-		sum = map[string]string{"run.status": "fail", "load.status": "fail"}
+		sum = map[string]string{}
+		if opts.Generate {
+			sum["run.status"] = "fail"
+		}
+		if opts.Inspect {
+			sum["load.status"] = "fail"
+		}
 	}
 	if sum["run.status"] == "err" {
 		sum["run.status"] = "fail"
@@ -320,7 +378,13 @@ func init() {
 			}
 			w := GenWorkload(r, ctx.Corpus, maxLangs, GenOpts{NoAllOf: r.Chance(2, 3)})
 			dir := filepath.Join(ctx.Dirs.Root, "case")
-			if r.Chance(2, 3) {
+			if idx%8 == 5 {
+				w = GenComposeWorkload(r)
+			} else if idx%8 == 6 {
+				w = GenListOfUnionsWorkload(r)
+			} else if idx%16 == 7 {
+				w = GenMergeWorkload(r)
+			} else if r.Chance(2, 3) {
 				EnrichWorkload(r.Fork("enrich"), w, dir)
 			}
 			res := &CaseResult{}
